@@ -70,6 +70,11 @@ def generate(seed, tier):
         fields = progs.fields_with_paths(c)[0]
         c["blocks"] = [{"n": "c%d" % b, "stmts": mixed_stmts(g, rng, fields, 1, 3)}
                        for b in range(rng.randint(1, 3))]
+        has_dyn = rng.random() < 0.35
+        if has_dyn:
+            # softs inside a dynamic block: they take part (at the position of the reference)
+            # only in calls whose inline block references it
+            c["blocks"].append({"n": "dz", "dyn": True, "stmts": mixed_stmts(g, rng, fields, 1, 2, nest=0)})
         prog = {"enums": [], "classes": [progs.strip(c)], "top": "K0"}
         if scen.rand_domain_size(prog, "K0") <= 512:
             break
@@ -95,8 +100,10 @@ def generate(seed, tier):
                         "inline": progs.strip(mixed_stmts(go, orng, fields, 1, 1, nest=0)) +
                         [progs.EXPR(progs.BIN("<", fe, progs.LIT(1))), progs.EXPR(progs.BIN(">", fe, progs.LIT(1)))]})
         elif r < 0.8:
-            ops.append({"op": "rw", "p": p,
-                        "inline": progs.strip(mixed_stmts(go, orng, fields, 1, 2, nest=1))})
+            inl = progs.strip(mixed_stmts(go, orng, fields, 1, 2, nest=1))
+            if has_dyn and orng.random() < 0.6:
+                inl.insert(orng.randint(0, len(inl)), progs.EXPR({"t": "dynref", "n": "dz", "p": []}))
+            ops.append({"op": "rw", "p": p, "inline": inl})
         elif nr:
             f = orng.choice(nr)
             ops.append({"op": "assign", "p": p, "path": [f["n"]], "v": go.in_range_value(f)})
@@ -280,8 +287,21 @@ def execute(rec):
             "evals": stats["judged_calls"], "sim_ms": int(w.clock.elapsed * 1000)}
 
 
+def expand_dyn(P, cname, inline):
+    """bare references to dynamic blocks replaced by the block's statements, in place"""
+    out = []
+    for s in inline:
+        if s["t"] == "expr" and s["e"].get("t") == "dynref" and not s["e"].get("p"):
+            blk = [b for b in P.blocks(cname, dynamic=True) if b["n"] == s["e"]["n"]]
+            out.extend(blk[0]["stmts"])
+        else:
+            out.append(s)
+    return out
+
+
 def analyse(P, cname, tree, rpaths, inline):
     """hard-feasible set, softs, per-soft truth tables (sets of points), chains"""
+    inline = expand_dyn(P, cname, inline)
     softs = []
     chains = []
     for b in P.blocks(cname):
